@@ -62,6 +62,11 @@ def lookup_oracle(c, out, hist, where, elsewhere=None):
         nsuri, local = uri.rsplit("/", 1)[0] + "/", uri.rsplit("/", 1)[1]
         probes.append((uri, "absent-qname", QualifiedName(Namespace("ab9", nsuri), local)))
     ok = True
+    # a look-up with a QualifiedName may register that name's namespace in the container (and make a later
+    # string look-up resolvable through it): ask the questions that cannot register anything first
+    rank = {"printed-name": 0, "full-uri": 1, "identifier-object": 2, "own-qname": 3, "present-elsewhere-qname": 4,
+            "foreign-prefix-qname": 5, "absent-qname": 6}
+    probes.sort(key=lambda p: rank[p[1]])
     for uri, how, x in probes:
         want = by_uri.get(uri, [])
         try:
